@@ -188,6 +188,14 @@ func (p List) primitiveElem(i int, expectedSize ObjectSize) (address, error) {
 	if !ok {
 		return 0, errorf("read list element %d: address overflow", i)
 	}
+	if p.flags&isCompositeList != 0 && expectedSize.PointerCount > 0 {
+		// A list of pointers upgraded to a list of structs: the value is the
+		// element's first pointer, which follows the element's data section.
+		addr, ok = addr.addSize(p.size.DataSize)
+		if !ok {
+			return 0, errorf("read list element %d: address overflow", i)
+		}
+	}
 	return addr, nil
 }
 
